@@ -23,7 +23,7 @@ FINISH = dict(
          "Spec.C09.holds (bracket ret[i+n] - call[i] >= period) and the progress bound are evaluated on "
          "the observed instants. (iii) real issuances (two identifiers, retries, polls, nonce fetches) through "
          "an endpoint with a rate limit: the arrival times of ALL requests at the mock CA obey the same "
-         "bracket with 40 % latency slack (a call site that skips the limiter shows gaps of milliseconds). distinct = distinct canonical cases; non-trivial = log non-empty or "
+         "bracket with 40 % latency slack (a call site that skips the limiter shows gaps of milliseconds). py/ext/c09x.py: n = 0, zero / multi-part / h-d-w periods and equal periods spelt differently in (i); in (iii) several failing attempts inside one window, endpoints with two or three limits attached by the configuration (both name orders), two endpoints with their own limits and two accounts, re-registration / contact update / key roll-over POSTs, three certificates contending with retries, nonce fetches and a cut connection. distinct = distinct canonical cases; non-trivial = log non-empty or "
          "more than n calls.",
 )
 
@@ -73,6 +73,8 @@ def deterministic_part(ctx):
     ctx.count("uptime_s:%d" % (uptime_ns // NS // 60 * 60))
     ops = [c for c in vlib.corpus("C09") if c.get("op") == "rl_case"]
     ops += [gen_case(ctx.rng, uptime_ns) for _ in range(n)]
+    from ext import c09x       # n = 0, zero / multi-part / h-d-w periods, equal periods spelt differently
+    ops += c09x.edge_cases(ctx.seed, uptime_ns, 120 if ctx.quick() else 3000)
     impl = vlib.probe(ops)
     m0 = vlib.model([dict(op, base_ns=(i or {}).get("base_ns", "0"), eps_ns=0) for op, i in zip(ops, impl)])
     m1 = vlib.model([dict(op, base_ns=(i or {}).get("base_ns", "0"), eps_ns=(i or {}).get("elapsed_ns", 0))
@@ -121,8 +123,8 @@ def deterministic_part(ctx):
 
 
 def parse_secs(txt):
-    mult = {"s": 1, "m": 60, "h": 3600, "d": 86400, "w": 604800}
-    return int(txt[:-1]) * mult[txt[-1]]
+    from ext import c09x
+    return c09x.parse_secs(txt)      # (multi-part periods: "1m30s")
 
 
 def window_full(op, base_ns):
@@ -279,6 +281,9 @@ def replay(ctx):
     with open(ctx.replay) as f:
         r = json.load(f)
     obj = r.get("replay", r)
+    if str(obj.get("part", "")).startswith("x:"):
+        from ext import c09x
+        return c09x.replay(ctx, obj)
     vlib.build_acmed()
     op = obj.get("probe") or obj.get("op")
     res = vlib.probe([op], timeout=300)[0]
@@ -308,7 +313,10 @@ def run(ctx):
     vlib.build_acmed()
     deterministic_part(ctx)
     realtime_part(ctx)
+    from ext import c09x       # more flows (several attempts per window, several limits, two endpoints, …)
+    hx = c09x.start(ctx)
     flow_part(ctx)
+    c09x.finish(ctx, hx)
     ctx.assumptions = ["clock readings never go backwards (CLOCK_MONOTONIC)",
                        "windows are half-open (t - p, t], as the implementation's strict comparison makes them"]
     return ctx.finish(**FINISH)
